@@ -7,7 +7,7 @@ the idiom `try: labelfmt.format(...) except IndexError: raise ValueError`, whose
 (`labelfmt_format : Except Err Unit`).
 ABSTRACTS declares the observers of interface objects (formula, graph): name -> ([param types], result, may raise).
 """
-from py2lean_types import (INT, BOOL, STR, RANGE, ERASED, TList, TOpt, TTuple, TObj, TAbs, THet)
+from py2lean_types import (INT, BOOL, STR, RANGE, ERASED, NONE, TList, TOpt, TTuple, TObj, TAbs, THet)
 
 VARS = "cnfgen/formula/variables.py"
 
@@ -35,6 +35,11 @@ ABS_PARSERS = {
     "AbsBipGraph": "(do let g ← bipG; match g with | .ok g => pure (Cnfgen.Vars.absBip g) | .error _ => failure)",
 }
 DRIVER_IMPORTS = ["CnfgenModel.Vars.GenGlue"]
+# abstract calls of effect objects, as the driver instantiates them for the self-test (the theorems quantify over them)
+DRIVER_CALLS = {
+    # BaseCNF._check_and_update on a list of integers: ValueError iff it contains 0
+    ("CNFLinear", "self_check_and_update"): "(fun ls => if ls.contains 0 then Except.error Err.valueError else Except.ok ())",
+}
 
 # objects that the translated code only constructs and sends commands to: (constructor arguments, log of commands)
 BUILDERS = {
@@ -44,6 +49,12 @@ BUILDERS = {
                        "observers": {"parts": ("(Py.Range.mk 1 (({c}).1.1 + 1), Py.Range.mk 1 (({c}).1.2 + 1))",
                                                TTuple([RANGE, RANGE]))}},
 }
+
+# `self` of CNFLinear.add_linear: only `add_clause(c, check=False)` (a command: the clause is appended),
+# `_check_and_update(lits)` (an abstract call: may raise, its effect on the variable count is outside the result) and the
+# procedure itself (recursion)
+BUILDERS["CNFLinear"] = {"ctor": [], "command": "add_clause", "args": [TList(INT)], "keywords": {"check": False},
+                         "calls": {"_check_and_update": ([TList(INT)], NONE, True)}}
 
 ITEMS = [
     {"file": VARS, "class": "BlockOfVariables", "property": "C11",
@@ -140,4 +151,7 @@ ITEMS = [
     {"file": "cnfgen/graphs.py", "function": "dag_pyramid", "property": "C15", "params": {"height": INT}},
     {"file": "cnfgen/graphs.py", "function": "bipartite_shift", "property": "C15",
      "params": {"N": INT, "M": INT, "pattern": TList(INT)}},
+    # ---- C04: the operator reduction of add_linear (a recursive procedure emitting clauses)
+    {"file": "cnfgen/formula/linear.py", "class": "CNFLinear", "property": "C04", "self_builder": True,
+     "methods": {"add_linear": {"params": {"lits": TList(INT), "op": STR, "constant": INT, "check": BOOL}}}},
 ]
